@@ -222,4 +222,26 @@ def perp(eq, mesh, spec):
     return out
 
 
-EXTRACTORS = {"perp": perp, "onsurface": onsurface, "contours": contours, "profiles": profiles, "fieldpts": fieldpts, "beta": beta, "bpsign": bpsign, "eqinfo": eqinfo, "regions": regions, "meshmeta": meshmeta}
+def wallinfo(eq, mesh, spec):
+    """per region: the full ylow/corner position arrays (including the upper edge), the penalty mask, which ends are targets; the
+    wall as stored; psi at the target faces"""
+    out = {"closed_wall": np.array(eq.closed_wallarray) if hasattr(eq, "closed_wallarray") else None,
+           "wall": [(float(p.R), float(p.Z)) for p in getattr(eq, "wall", [])],
+           "p0": ((eq.Rmax + eq.Rmin) / 2, (eq.Zmax + eq.Zmin) / 2), "regions": {}}
+    for rid, r in mesh.regions.items():
+        sl = mesh.region_indices[rid]
+        out["regions"][rid] = {
+            "name": r.name, "slice": (sl[0], sl[1]), "lower_target": r.connections["lower"] is None, "upper_target": r.connections["upper"] is None,
+            "Rylow": np.array(r.Rxy.ylow), "Zylow": np.array(r.Zxy.ylow), "Rc": np.array(r.Rxy.centre), "Zc": np.array(r.Zxy.centre),
+            "Rcorn": np.array(r.Rxy.corners), "Zcorn": np.array(r.Zxy.corners), "penalty_mask": np.array(r.penalty_mask),
+            "psi_vals": np.array(r.psi_vals, dtype=float), "psi_ylow": np.array(eq.psi(np.array(r.Rxy.ylow), np.array(r.Zxy.ylow))),
+            "psi_corn": np.array(eq.psi(np.array(r.Rxy.corners), np.array(r.Zxy.corners))),
+            "startInd": [int(c.startInd) for c in r.contours], "endInd": [int(c.endInd) for c in r.contours], "len": [len(c) for c in r.contours],
+            "sep_contour": [bool(abs(c.psival - eq.psi_sep[0]) < 1e-9 * max(1.0, abs(eq.psi_sep[0]))) for c in r.contours] if hasattr(eq, "psi_sep") else [],
+        }
+    out["ng"] = int(mesh.user_options.y_boundary_guards)
+    out["refine_atol"] = float(eq.user_options.refine_atol)
+    return out
+
+
+EXTRACTORS = {"wallinfo": wallinfo, "perp": perp, "onsurface": onsurface, "contours": contours, "profiles": profiles, "fieldpts": fieldpts, "beta": beta, "bpsign": bpsign, "eqinfo": eqinfo, "regions": regions, "meshmeta": meshmeta}
